@@ -145,7 +145,21 @@ C15 = sess_prop("C15", ["Props.C15"], "Lean theorems C15_* (peer logout, own log
 C16 = sess_prop("C16", ["Props.C16"], "Lean theorems C16_reject_* (every admin kind x every damage/state) + correspondence + reject-by-sequence-number oracle",
                 [], "distinct (damaged or not-permitted admin message, logged-before) pairs")
 
-PROPS = {"C06": C06, "C07": C07, "C10": C10, "C14": C14, "C15": C15, "C16": C16, "C01": C01, "C17": C17, "C02": C02, "C18": C18, "C03": C03, "C11": C11}
+def C19(ctx):
+    if common_prelude(ctx, ["Props.C19"]):
+        n = sizes(ctx, 600, 6000)
+        for sd in seeds(ctx):
+            res = run_harness(ctx, f"pool-{sd}", "pool", ["-seed", str(sd), "-n", str(n)])
+            fold(ctx, res, ["C19"], f"pool model vs real DefaultHandler, seed {sd}")
+    ctx.rules.append("random sets of all-types and type-specific outgoing / incoming handlers with random accept/refuse verdicts and a failing ToBytes on the real DefaultHandler (call log + "
+                     "what reaches the outgoing channel compared with the model); real Session with a store failing on the k-th Save and a handler refusing the j-th message "
+                     "(go-side oracles: stored before later handlers run, handler sees the transmitted bytes, refused/unsaved => error and nothing transmitted, number consumed); "
+                     "non-trivial = distinct (verdict pattern) / (failAt, refuseAt, index)")
+    return finish(ctx, "proof", "Lean theorems C19_order / veto / pass / save_first / inbound over the pool model and C19_saved from the session store-trace + correspondence + store/handler oracles",
+                  TRUSTED_COMMON, ["the session registers its save handler at construction, before any user handler can be registered (checked by the session scenario)"], CHECKER)
+
+
+PROPS = {"C19": C19, "C06": C06, "C07": C07, "C10": C10, "C14": C14, "C15": C15, "C16": C16, "C01": C01, "C17": C17, "C02": C02, "C18": C18, "C03": C03, "C11": C11}
 
 
 def replay(ctx, path):
